@@ -9,6 +9,11 @@
 //! compared with the schoolbook convolution in i128, with the same call on a fresh object, with the
 //! accumulate-into variant on a pre-filled destination and with forward x forward -> inverse.
 //!
+//! Destination lengths: every call with a transform size <= 16 runs each accumulate-into variant
+//! (`multiply_into`, `fft_inv_into`, `fft_into`) on a pre-filled destination of EVERY length from 0 to two
+//! beyond what is due (product length / transform size): the positions that exist receive the leading
+//! coefficients of the exact result, everything else stays as it was.
+//!
 //! Further families: every public way of obtaining an object (`new`, `Default::default`, a clone of
 //! either) is an initial state, and the table sizes 1 and 2 below the pre-sized 4 are object states as
 //! well, so the smallest transforms are the first thing each kind of fresh object computes; operands
@@ -46,6 +51,16 @@ use vcore::*;
 static SHORT_DEST_JUDGED: AtomicU64 = AtomicU64::new(0);
 static SHORT_DEST_REFUSED: AtomicU64 = AtomicU64::new(0);
 static FRESH_THREADS: AtomicU64 = AtomicU64::new(0);
+/// destination-length family: calls judged per variant [multiply_into, fft_inv_into, fft_into], of which
+/// with an odd destination shorter than what is due, and calls refused by a panic (not judged)
+static DEST_LEN_JUDGED: [AtomicU64; 3] = [AtomicU64::new(0), AtomicU64::new(0), AtomicU64::new(0)];
+static DEST_LEN_ODD_SHORT: [AtomicU64; 3] = [AtomicU64::new(0), AtomicU64::new(0), AtomicU64::new(0)];
+static DEST_LEN_REFUSED: [AtomicU64; 3] = [AtomicU64::new(0), AtomicU64::new(0), AtomicU64::new(0)];
+const DEST_VARIANTS: [&str; 3] = ["multiply_into", "fft_inv_into", "fft_into"];
+/// Calls whose transform size is at most this get EVERY destination length 0..=due + DEST_LEN_BEYOND for
+/// each accumulate-into variant (due = product length for multiply_into, transform size for the others).
+const DEST_LEN_MAX_N: usize = 16;
+const DEST_LEN_BEYOND: usize = 2;
 
 fn harness_thread_failed(what: &str) -> ! {
     println!("MACHINERY-FAILURE property=C04 engine=fft {what} (not a verdict)");
@@ -303,8 +318,109 @@ fn grow<F: Float>(prec: Prec, ctor: Ctor, state: usize, by_multiply: bool) -> Re
     Ok(f)
 }
 
-/// All judgements of one call.  Err((family, message)).
-fn judge_call<F: Float>(obj: &FFT<F>, a: &[i32], b: &[i32]) -> Result<(), Failed> {
+/// Previous contents of an i64 destination: arbitrary values - small ones, and ones that no float type
+/// represents exactly (above 2^24 / 2^53), of both signs, far from overflowing when a product is added.
+fn pre(i: usize) -> i64 {
+    match i % 5 {
+        0 => 1000 + 7 * i as i64,
+        1 => (1i64 << 53) + 1 + i as i64,
+        2 => -(1i64 << 60) - 3 * i as i64,
+        3 => (1i64 << 24) + 1,
+        _ => (1i64 << 61) + 12345,
+    }
+}
+
+/// Previous contents of a spectrum destination: small integers, both parts non-zero.
+fn cpre<F: Float>(i: usize) -> Complex<F> {
+    Complex::new(F::from_i32(3 + 2 * (i % 7) as i32), F::from_i32(-5 - (i % 4) as i32))
+}
+
+/// What an accumulate-into call left in a destination that held `pre(i)`, against `due` (the coefficients
+/// a destination that is long enough receives): every position that exists holds its previous value plus
+/// its coefficient, a position beyond what is due its previous value.
+fn judge_dest(what: &str, due: &[i64], dest: &[i64]) -> Result<(), String> {
+    for (i, &d) in dest.iter().enumerate() {
+        let term = due.get(i).copied().unwrap_or(0);
+        if d != pre(i) + term {
+            let beyond = if i >= due.len() { ", beyond what is due: it must stay as it was" } else { "" };
+            return Err(format!("{what} on a pre-filled destination of length {} ({} coefficients are due): entry {i} held {} before, is {d} after, expected {} (coefficient {term}{beyond})", dest.len(), due.len(), pre(i), pre(i) + term));
+        }
+    }
+    Ok(())
+}
+
+fn count_dest_len(variant: usize, k: usize, due: usize) {
+    DEST_LEN_JUDGED[variant].fetch_add(1, Relaxed);
+    if k < due && k % 2 == 1 {
+        DEST_LEN_ODD_SHORT[variant].fetch_add(1, Relaxed);
+    }
+}
+
+/// DESTINATION LENGTHS of the transform variants (transform size n <= DEST_LEN_MAX_N): `fft_into(a, n, D)`,
+/// `fft_into(b, n, D)` and `fft_inv_into(fft(a) * fft(b), D)` with a pre-filled D of EVERY length
+/// 0..=n + DEST_LEN_BEYOND.  The crate zips the destination with the n values, so the positions that exist
+/// receive their values (the first len(D) coefficients of the product; for the forward transform the sum, in
+/// the float type, of what they held and the value `fft` returns on an object in the same state) and
+/// positions beyond n stay as they were.  A version that refuses a length other than n by panicking is not
+/// judged there (counted).  `small_tables`: every call on its own copy of the object, so that each length
+/// is the call that grows the tables; otherwise (tables >= n, nothing grows) one copy serves all lengths.
+fn judge_destination_lengths<F: Float>(obj: &FFT<F>, small_tables: bool, a: &[i32], b: &[i32], n: usize, due: &[i64]) -> Result<(), Failed> {
+    let cloned = || catch(|| obj.clone()).map_err(|p| ("object_state_panics", format!("cloning the object panicked: {p}")));
+    let lengths = 0..=n + DEST_LEN_BEYOND;
+    let mut spectra = vec![];
+    for (name, v) in [("a", a), ("b", b)] {
+        let mut o = cloned()?;
+        let full = catch(|| o.fft(v, n)).map_err(|p| ("transform_panics", format!("fft({name}, {n}) panicked: {p}")))?;
+        for k in lengths.clone() {
+            if small_tables {
+                o = cloned()?;
+            }
+            let mut dest: Vec<Complex<F>> = (0..k).map(cpre).collect();
+            match catch(|| o.fft_into(v, n, &mut dest)) {
+                Err(p) if k == n => return Err(("transform_panics", format!("fft_into({name}, {n}) on a pre-filled destination of length {n} panicked: {p}"))),
+                Err(_) => {
+                    DEST_LEN_REFUSED[2].fetch_add(1, Relaxed);
+                    o = cloned()?;
+                }
+                Ok(()) => {
+                    count_dest_len(2, k, n);
+                    for i in 0..k {
+                        let want = if i < n { cpre::<F>(i) + full[i] } else { cpre(i) };
+                        if dest[i] != want {
+                            let beyond = if i >= n { " (beyond the transform size: it must stay as it was)" } else { "" };
+                            return Err(("fft_into_destination_length", format!("fft_into({name}, {n}) on a pre-filled destination of length {k}: entry {i} held {:?} before, is {:?} after; fft({name}, {n})[{i}] is {:?}, expected {:?}{beyond}", cpre::<F>(i), dest[i], full.get(i), want)));
+                        }
+                    }
+                }
+            }
+        }
+        spectra.push(full);
+    }
+    let prod: Vec<Complex<F>> = spectra[0].iter().zip(spectra[1].iter()).map(|(x, y)| *x * *y).collect();
+    let mut o = cloned()?;
+    for k in lengths {
+        if small_tables {
+            o = cloned()?;
+        }
+        let mut dest: Vec<i64> = (0..k).map(pre).collect();
+        match catch(|| o.fft_inv_into(&prod, &mut dest)) {
+            Err(p) if k == n => return Err(("transform_panics", format!("fft_inv_into of a spectrum of {n} values on a pre-filled destination of length {n} panicked: {p}"))),
+            Err(_) => {
+                DEST_LEN_REFUSED[1].fetch_add(1, Relaxed);
+                o = cloned()?;
+            }
+            Ok(()) => {
+                count_dest_len(1, k, n);
+                judge_dest(&format!("fft_inv_into of fft(a, {n}) * fft(b, {n})"), due, &dest).map_err(|m| ("fft_inv_into_destination_length", m))?;
+            }
+        }
+    }
+    Ok(())
+}
+
+/// All judgements of one call.  Err((family, message)).  `small_tables`: the object's tables may be
+/// smaller than DEST_LEN_MAX_N (see `judge_destination_lengths`).
+fn judge_call<F: Float>(obj: &FFT<F>, small_tables: bool, a: &[i32], b: &[i32]) -> Result<(), Failed> {
     let exp = conv(a, b);
     let cloned = || catch(|| obj.clone()).map_err(|p| ("object_state_panics", format!("cloning the object panicked: {p}")));
     // 1. multiply on the (possibly grown) object
@@ -327,17 +443,6 @@ fn judge_call<F: Float>(obj: &FFT<F>, a: &[i32], b: &[i32]) -> Result<(), Failed
     // 3. accumulate-into variant on a pre-filled destination, longer than needed
     let mut o2 = cloned()?;
     let dl = exp.len() + 3;
-    // the destination's previous contents are arbitrary i64 values: small ones, and ones that no float
-    // type represents exactly (above 2^24 / 2^53), of both signs, far from overflowing when the product is added
-    let pre = |i: usize| -> i64 {
-        match i % 5 {
-            0 => 1000 + 7 * i as i64,
-            1 => (1i64 << 53) + 1 + i as i64,
-            2 => -(1i64 << 60) - 3 * i as i64,
-            3 => (1i64 << 24) + 1,
-            _ => (1i64 << 61) + 12345,
-        }
-    };
     let mut dest: Vec<i64> = (0..dl).map(pre).collect();
     catch(|| o2.multiply_into(a, b, &mut dest)).map_err(|p| ("multiply_panics", format!("multiply_into panicked: {p}")))?;
     for i in 0..dl {
@@ -349,29 +454,43 @@ fn judge_call<F: Float>(obj: &FFT<F>, a: &[i32], b: &[i32]) -> Result<(), Failed
     if exp.is_empty() {
         return Ok(());
     }
-    // 3b. destinations SHORTER than the product (the usual "product modulo x^k" call).  The crate zips the
-    // destination with the coefficients, so the positions that exist receive their coefficients and the
-    // rest of the product is dropped.  A version that refuses such a destination by panicking is not
-    // judged (the property does not say what happens then; counted); one that returns must have added
-    // exactly the leading coefficients.
-    let mut shorts = vec![1, a.len().min(b.len()), a.len().max(b.len()), exp.len() - 1];
-    shorts.retain(|&k| k >= 1 && k < exp.len());
-    shorts.sort();
-    shorts.dedup();
-    for k in shorts {
+    // transform size of the product
+    let mut n = 2;
+    while n < exp.len() {
+        n *= 2;
+    }
+    // 3b. destinations of OTHER lengths than the product, shorter ones above all (the usual "product modulo
+    // x^k" call).  The crate zips the destination with the coefficients, so the positions that exist receive
+    // their coefficients, the rest of the product is dropped and positions beyond the product stay as they
+    // were.  Small transforms (n <= DEST_LEN_MAX_N): EVERY length 0..=product length + DEST_LEN_BEYOND;
+    // larger ones: 1, the operand lengths, product length - 1.  A version that refuses a short destination by
+    // panicking is not judged (the property does not say what happens then; counted); one that returns must
+    // have added exactly the leading coefficients.
+    let lengths: Vec<usize> = if n <= DEST_LEN_MAX_N {
+        (0..=exp.len() + DEST_LEN_BEYOND).collect()
+    } else {
+        let mut shorts = vec![1, a.len().min(b.len()), a.len().max(b.len()), exp.len() - 1];
+        shorts.retain(|&k| k >= 1 && k < exp.len());
+        shorts.sort();
+        shorts.dedup();
+        shorts
+    };
+    for k in lengths {
         let mut o5 = cloned()?;
         let mut dest: Vec<i64> = (0..k).map(pre).collect();
         match catch(|| o5.multiply_into(a, b, &mut dest)) {
+            Err(p) if k >= exp.len() => return Err(("multiply_panics", format!("multiply_into on a destination of length {k} (the product has {} coefficients) panicked: {p}", exp.len()))),
             Err(_) => {
                 SHORT_DEST_REFUSED.fetch_add(1, Relaxed);
             }
             Ok(()) => {
-                SHORT_DEST_JUDGED.fetch_add(1, Relaxed);
-                for i in 0..k {
-                    if dest[i] != pre(i) + exp[i] {
-                        return Err(("multiply_into_short_destination", format!("multiply_into on a pre-filled destination of length {k} (the product has {} coefficients): entry {i} held {} before, is {} after, expected {} (convolution term {})", exp.len(), pre(i), dest[i], pre(i) + exp[i], exp[i])));
-                    }
+                if k < exp.len() {
+                    SHORT_DEST_JUDGED.fetch_add(1, Relaxed);
                 }
+                if n <= DEST_LEN_MAX_N {
+                    count_dest_len(0, k, exp.len());
+                }
+                judge_dest("multiply_into", &exp, &dest).map_err(|m| (if k < exp.len() { "multiply_into_short_destination" } else { "multiply_into_accumulates" }, m))?;
             }
         }
     }
@@ -394,12 +513,9 @@ fn judge_call<F: Float>(obj: &FFT<F>, a: &[i32], b: &[i32]) -> Result<(), Failed
         if r.1 != vec![exp[0] + (1i64 << 55) + 9] {
             return Err(("fft_inv_into_accumulates", format!("size-1 fft_inv_into on a destination holding 2^55+9 gives {:?}, expected {:?}", r.1, vec![exp[0] + (1i64 << 55) + 9])));
         }
+        judge_destination_lengths(obj, small_tables, a, b, 1, &exp)?;
     }
     // 4. forward transforms, pointwise product, inverse transform
-    let mut n = 2;
-    while n < exp.len() {
-        n *= 2;
-    }
     let mut o3 = cloned()?;
     let viat = catch(|| {
         let fa = o3.fft(a, n);
@@ -435,6 +551,10 @@ fn judge_call<F: Float>(obj: &FFT<F>, a: &[i32], b: &[i32]) -> Result<(), Failed
     if viat.1 != acc_want {
         return Err(("fft_inv_into_accumulates", format!("fft_inv_into on a pre-filled destination (5 / 2^55+9 alternating): {}", first_diff(&viat.1, &acc_want))));
     }
+    // 4c. every destination length of the transform variants
+    if n <= DEST_LEN_MAX_N {
+        judge_destination_lengths(obj, small_tables, a, b, n, &padded)?;
+    }
     Ok(())
 }
 
@@ -445,8 +565,8 @@ fn run_spec(s: &CallSpec) -> Result<(), Failed> {
         Some(v) => (&v.buf[v.a0..v.a0 + s.a.len()], &v.buf[v.b0..v.b0 + s.b.len()]),
     };
     match s.prec {
-        Prec::F64 => judge_call(&grow::<f64>(s.prec, s.ctor, s.state, s.grown_by_multiply)?, a, b),
-        Prec::F32 => judge_call(&grow::<f32>(s.prec, s.ctor, s.state, s.grown_by_multiply)?, a, b),
+        Prec::F64 => judge_call(&grow::<f64>(s.prec, s.ctor, s.state, s.grown_by_multiply)?, s.state < DEST_LEN_MAX_N, a, b),
+        Prec::F32 => judge_call(&grow::<f32>(s.prec, s.ctor, s.state, s.grown_by_multiply)?, s.state < DEST_LEN_MAX_N, a, b),
     }
 }
 
@@ -1433,7 +1553,7 @@ fn main() {
             for cb in 0..nb {
                 let b = vector(cb, lb);
                 tot.calls += 1;
-                if let Err(e) = judge_call(&obj, &a, &b) {
+                if let Err(e) = judge_call(&obj, st < DEST_LEN_MAX_N, &a, &b) {
                     tot.fails.push(fail(ca * nb + cb, e, a, b));
                     return tot;
                 }
@@ -1674,14 +1794,21 @@ fn main() {
     run.cov("exhaustive", false);
     run.cov("multiply_into_short_destination_calls_judged", SHORT_DEST_JUDGED.load(Relaxed));
     run.cov("multiply_into_short_destination_calls_refused_by_panic_not_judged", SHORT_DEST_REFUSED.load(Relaxed));
+    let per_variant = |c: &[AtomicU64; 3]| -> Value { json!(DEST_VARIANTS.iter().zip(c.iter()).map(|(v, n)| (v.to_string(), json!(n.load(Relaxed)))).collect::<serde_json::Map<String, Value>>()) };
+    run.cov("destination_length_family_transform_sizes_up_to", DEST_LEN_MAX_N as u64);
+    run.cov("destination_length_family_lengths", format!("every length 0..=due + {DEST_LEN_BEYOND} (due = product length for multiply_into, transform size for fft_inv_into and fft_into)"));
+    run.cov("destination_length_calls_judged", per_variant(&DEST_LEN_JUDGED));
+    run.cov("destination_length_calls_judged_with_an_odd_length_shorter_than_due", per_variant(&DEST_LEN_ODD_SHORT));
+    run.cov("destination_length_calls_refused_by_panic_not_judged", per_variant(&DEST_LEN_REFUSED));
     run.cov(
         "rule",
-        "state = (how the object was obtained: new, Default::default, a clone of either - the whole public constructor surface; size of its twiddle/bit-reversal tables: every power of two 4..2^K for new(), reached by update_n and by a large multiply, and for every constructor the sizes 1 and 2 below the pre-sized 4 - so that a 1-, 2- or 4-point transform is the FIRST thing that kind of fresh object computes - and 4, 8, 64, 2048); transition = one call (a, b) judged five ways (exact convolution, fresh object, repeated call, multiply_into on a pre-filled destination longer than the product and on destinations shorter than it (lengths 1, min and max operand length, product length - 1: the positions that exist must receive exactly their coefficients), fft*fft->fft_inv and fft_inv_into); calls = every length pair of the length set x 12 pattern pairs x magnitudes {1, sqrt(Amax), Amax} with Amax on the envelope boundary (constructors other than new and the sizes 1, 2: all pairs of lengths <= 8 and a third of the pairs at a size switch), all vectors over {-A,-1,0,1,A} for lengths <= 4 (quick: la+lb <= 6), envelope corners with long vectors, all call histories of length <= 3 over an 8-call alphabet; ALIASED operands: a and b passed as two views of ONE buffer - all pairs of windows of an 8-element buffer (quick; the same slice twice, prefixes, suffixes, nested, overlapping, adjacent, empty) and the same relations at longer lengths around powers of two, 4 contents x 2 magnitudes, judged the same five ways against the convolution of the VALUES; BUFFER-REUSE histories: one object and one set of caller buffers (two inputs, three spectrum buffers, one destination, never reallocated: same address, same length, same n), every word of up to 3 letters (contents in {c0, c0 with A and B exchanged, c2} written into the buffers IN PLACE) x (method in {multiply, multiply with the arguments exchanged, multiply_into, fft/fft/pointwise/fft_inv, fft_into/fft_into/pointwise/fft_inv_into, fft once/pointwise square/fft_inv on A, the same on B}), every step compared with the convolution of the buffers' current values, for 8 length pairs x {new, default} x {f64, f32}; SEVERAL OBJECTS (the history of a THREAD is what is enumerated; runs first): a cast of two or three objects (f64/f64, f64/f32, f64/f32/f64) is created in order by new() on a fresh thread T0, then every word of up to 3 letters (2 for the cast of three; thorough 4 / 3) over {judged product of a size class (transform sizes 2, 16, 512, magnitudes on the envelope boundary) on one of the objects ITSELF - multiply, multiply_into on a pre-filled destination, fft*fft->fft_inv and fft_inv_into, each against the schoolbook convolution; update_n(1024) on an object; an object dropped and a new one created in its place; an object replaced by a clone of another of its float type; 'hop': the following steps run on the script's second fresh thread T1, or back on T0 - every object moves (generated only if the compiler says the objects are Send); 'lend': the other thread clones an object through a shared reference, computes the mid product on the clone and drops it (only if they are Sync)}, at the end everything is dropped on the thread of the last step; the words include an object that is fresh next to a grown one, objects used alternately while one of them grows, a fresh object after a grown one was dropped, an object grown on one thread and used on the other; EVERY call into the crate (constructors, clones, update_n, the growing multiplies - themselves judged against the convolution of all-ones vectors -, transforms, explicit drops) is inside catch, and a panic is a violation of the family it belongs to (object_state_panics for constructors, clones and update_n); NOT all coefficient vectors (exhaustive: false)",
+        "state = (how the object was obtained: new, Default::default, a clone of either - the whole public constructor surface; size of its twiddle/bit-reversal tables: every power of two 4..2^K for new(), reached by update_n and by a large multiply, and for every constructor the sizes 1 and 2 below the pre-sized 4 - so that a 1-, 2- or 4-point transform is the FIRST thing that kind of fresh object computes - and 4, 8, 64, 2048); transition = one call (a, b) judged five ways (exact convolution, fresh object, repeated call, multiply_into on a pre-filled destination longer than the product and on destinations shorter than it (lengths 1, min and max operand length, product length - 1: the positions that exist must receive exactly their coefficients), fft*fft->fft_inv and fft_inv_into); DESTINATION LENGTHS: every call whose transform size is <= 16 (all pairs with la + lb <= 17, in every object state, constructor, float type, pattern and magnitude that the call is enumerated with; also the size-1 transforms of single coefficients) additionally runs each accumulate-into variant - multiply_into(a, b, D), fft_inv_into(fft(a)*fft(b), D), fft_into(a, n, D), fft_into(b, n, D) - on a pre-filled destination D of EVERY length 0..=due+2 (due = product length for multiply_into, transform size n for the two transform variants): the positions that exist must hold what they held plus the leading len(D) coefficients of the exact convolution (for fft_into: plus, in the float type, the value fft returns on an object in the same state), positions beyond what is due must be untouched; objects whose tables are smaller than 16 serve every length on a copy of their own, so that each length is also the call that grows the tables; a panic at a length other than the due one is 'refused' and counted, not judged; calls = every length pair of the length set x 12 pattern pairs x magnitudes {1, sqrt(Amax), Amax} with Amax on the envelope boundary (constructors other than new and the sizes 1, 2: all pairs of lengths <= 8 and a third of the pairs at a size switch), all vectors over {-A,-1,0,1,A} for lengths <= 4 (quick: la+lb <= 6), envelope corners with long vectors, all call histories of length <= 3 over an 8-call alphabet; ALIASED operands: a and b passed as two views of ONE buffer - all pairs of windows of an 8-element buffer (quick; the same slice twice, prefixes, suffixes, nested, overlapping, adjacent, empty) and the same relations at longer lengths around powers of two, 4 contents x 2 magnitudes, judged the same five ways against the convolution of the VALUES; BUFFER-REUSE histories: one object and one set of caller buffers (two inputs, three spectrum buffers, one destination, never reallocated: same address, same length, same n), every word of up to 3 letters (contents in {c0, c0 with A and B exchanged, c2} written into the buffers IN PLACE) x (method in {multiply, multiply with the arguments exchanged, multiply_into, fft/fft/pointwise/fft_inv, fft_into/fft_into/pointwise/fft_inv_into, fft once/pointwise square/fft_inv on A, the same on B}), every step compared with the convolution of the buffers' current values, for 8 length pairs x {new, default} x {f64, f32}; SEVERAL OBJECTS (the history of a THREAD is what is enumerated; runs first): a cast of two or three objects (f64/f64, f64/f32, f64/f32/f64) is created in order by new() on a fresh thread T0, then every word of up to 3 letters (2 for the cast of three; thorough 4 / 3) over {judged product of a size class (transform sizes 2, 16, 512, magnitudes on the envelope boundary) on one of the objects ITSELF - multiply, multiply_into on a pre-filled destination, fft*fft->fft_inv and fft_inv_into, each against the schoolbook convolution; update_n(1024) on an object; an object dropped and a new one created in its place; an object replaced by a clone of another of its float type; 'hop': the following steps run on the script's second fresh thread T1, or back on T0 - every object moves (generated only if the compiler says the objects are Send); 'lend': the other thread clones an object through a shared reference, computes the mid product on the clone and drops it (only if they are Sync)}, at the end everything is dropped on the thread of the last step; the words include an object that is fresh next to a grown one, objects used alternately while one of them grows, a fresh object after a grown one was dropped, an object grown on one thread and used on the other; EVERY call into the crate (constructors, clones, update_n, the growing multiplies - themselves judged against the convolution of all-ones vectors -, transforms, explicit drops) is inside catch, and a panic is a violation of the family it belongs to (object_state_panics for constructors, clones and update_n); NOT all coefficient vectors (exhaustive: false)",
     );
     run.sample(json!({"prec": "F64", "state": 2048, "a": "alternating ±A (len 33)", "b": "alternating ±A (len 31)", "A": amax(Prec::F64, 33, 31)}));
     run.sample(json!({"prec": "F32", "state": 4, "a": pattern(8, 5, amax(Prec::F32, 5, 4)), "b": pattern(2, 4, amax(Prec::F32, 5, 4))}));
     run.sample(json!({"history": hists.last().map(|h| h.iter().map(hop_json).collect::<Vec<_>>())}));
     run.assume("the envelope is read as max|coef|^2 * max(len a, len b) <= 1e12 (f64): inside the property's formula and inside the published table for unequal lengths too (zero padding); the f32 envelope max|coef|^2 * max(len) <= 1e3 is this harness's reading of 'a correspondingly smaller bound for f32' (>= 100x inside CORRECT_F32_BOUNDS)");
+    run.sample(json!({"destination_lengths": {"call": "fft_inv_into(fft(a, 8) * fft(b, 8), D)", "a": [1, -2, 3], "b": [4, 5, -6], "D": "pre-filled, of each length 0..=10", "expected": "D[i] += conv(a, b)[i] for i < min(len D, 5), everything else untouched"}}));
     run.sample(json!({"aliased": {"buffer": pattern(8, 8, 11), "a": "buf[0..5]", "b": "buf[0..3]", "relation": relation(0, 5, 0, 3)}}));
     run.sample(json!({"buffer_reuse_history": reuse_json(&ReuseSpec { prec: Prec::F64, ctor: Ctor::Default, la: 3, lb: 2, steps: vec![(0, 5), (1, 5), (2, 3)] })}));
     {
@@ -1705,6 +1832,9 @@ fn main() {
         }
         if reuse_histories < 1000 || refills <= reuse_histories {
             run.machinery_failure("the buffer-reuse histories did not refill their buffers in place");
+        }
+        if (0..3).any(|v| DEST_LEN_JUDGED[v].load(Relaxed) < 10_000 || DEST_LEN_ODD_SHORT[v].load(Relaxed) < 1000) {
+            run.machinery_failure("the destination-length family judged too few calls of some accumulate-into variant (or none with an odd destination shorter than what is due)");
         }
         if !object_states.iter().any(|o| o.0 == Ctor::Default && o.1 == 1) || !CTORS.iter().all(|c| object_states.iter().any(|o| o.0 == *c)) {
             run.machinery_failure("some public constructor is not an initial object state");
